@@ -108,13 +108,23 @@ func (c *Ctx) Fn(rule, name string) *Fn {
 	return f
 }
 
-// Expect asserts that a rule matched at least the number of instances confirmed by hand.
-func (c *Ctx) Expect(rule, what string, measured, confirmedMin int) {
-	c.Counts = append(c.Counts, &Count{rule, what, measured, confirmedMin})
-	if measured < confirmedMin {
-		st := Vacuous
-		c.add(rule, "instances:"+what, token.NoPos, st,
-			fmt.Sprintf("rule matched %d instance(s) of %q, fewer than the %d confirmed by hand — the rule would pass vacuously", measured, what, confirmedMin), nil)
+// Expect guards a rule against passing vacuously.  confirmed is the number of instances counted by
+// hand on the tree the rule was written for; it is recorded next to the measured count in the evidence.
+// The rule fails as vacuous when it finds none, or fewer than half of them: a behaviour-preserving
+// consolidation (two copies of a fragment merged into one helper) lowers a count without making the
+// rule blind, whereas losing more than half of the instances means the rule no longer sees the
+// constructs it is about.
+func (c *Ctx) Expect(rule, what string, measured, confirmed int) {
+	c.Counts = append(c.Counts, &Count{rule, what, measured, confirmed})
+	floor := confirmed / 2
+	if floor < 1 {
+		floor = 1
+	}
+	if measured < floor {
+		c.add(rule, "instances:"+what, token.NoPos, Vacuous,
+			fmt.Sprintf("rule matched %d instance(s) of %q; %d were confirmed by hand and fewer than %d means the rule no longer sees its constructs — it would pass vacuously", measured, what, confirmed, floor), nil)
+	} else if measured < confirmed {
+		c.Note("%s: %d instance(s) of %q (hand-confirmed: %d)", rule, measured, what, confirmed)
 	}
 }
 
